@@ -410,7 +410,7 @@ func validateSecurityRequirement(ctx context.Context, input *RequestValidationIn
 		options = &Options{}
 	}
 	f := options.AuthenticationFunc
-	if f == nil {
+	if f == nil && len(names) > 0 {
 		return ErrAuthenticationServiceMissing
 	}
 
